@@ -64,7 +64,11 @@ func decodeString(f reflect.Type, t reflect.Type, data any) (any, error) {
 	}
 	if f.Kind() == reflect.Ptr {
 		elem := reflect.ValueOf(data).Elem()
-		if !elem.IsValid() || ((elem.Kind() == reflect.Interface || elem.Kind() == reflect.Ptr) && elem.IsNil()) {
+		inner := elem
+		for inner.Kind() == reflect.Interface && !inner.IsNil() {
+			inner = inner.Elem()
+		}
+		if !inner.IsValid() || ((inner.Kind() == reflect.Interface || inner.Kind() == reflect.Ptr) && inner.IsNil()) {
 			// Nothing to dereference (nil pointer, or pointer to a nil interface or nil pointer): leave the value to mapstructure
 			return data, nil
 		}
